@@ -10,8 +10,12 @@ package sched
 
 import (
 	"bytes"
+	"crypto/sha256"
+	"encoding/hex"
 	"fmt"
+	"io"
 	"runtime"
+	"sort"
 	"strconv"
 	"sync"
 	"sync/atomic"
@@ -32,6 +36,8 @@ type thread struct {
 	adopted bool
 	blocked bool // blocked on a lock held by a parked thread
 	parked  bool
+	steps   int // how many times it was granted a step
+	blockNo int // order in which currently blocked threads went to wait (the lock's queue order)
 }
 
 type evKind int
@@ -52,6 +58,7 @@ type Decision struct {
 	Chosen         int    // index into Enabled
 	At             string // point the chosen thread was parked at
 	RunningEnabled bool
+	Key            string `json:",omitempty"` // state key before the decision (only with KeyFn, only past the prefix)
 }
 
 type Sched struct {
@@ -68,6 +75,67 @@ type Sched struct {
 	Deadlock string // set when unfinished threads exist but none is enabled
 	bodies   []func()
 	names    []string
+	// KeyFn, if set, renders the shared state (store, backend); Run combines it with every thread's local state
+	// (ResultsFn: what goroutine gid has observed so far) into Decision.Key at every decision past the prefix.
+	KeyFn     func() string
+	ResultsFn func(gid int64) string
+	blockSeq  int
+}
+
+// stateKey must be called while every thread is parked, blocked or finished.
+func (s *Sched) stateKey() string {
+	h := sha256.New()
+	io.WriteString(h, s.KeyFn())
+	s.mu.Lock()
+	type tk struct {
+		name, rest string
+		block      int
+	}
+	var ts []tk
+	for _, t := range s.threads {
+		st := "parked@" + t.at
+		switch {
+		case t.done:
+			st = "done"
+		case t.blocked:
+			st = "blocked@" + t.at
+		}
+		r := ""
+		if s.ResultsFn != nil {
+			r = s.ResultsFn(t.gid)
+		}
+		b := 0
+		if t.blocked && !t.done {
+			b = t.blockNo
+		}
+		ts = append(ts, tk{t.name, fmt.Sprintf("%s|%d|%s", st, t.steps, r), b})
+	}
+	s.mu.Unlock()
+	// harness threads have unique names; adopted background goroutines ("bg") are ordered by what they have seen
+	sort.SliceStable(ts, func(i, j int) bool {
+		if ts[i].name != ts[j].name {
+			return ts[i].name < ts[j].name
+		}
+		return ts[i].rest < ts[j].rest
+	})
+	// lock queue order: rank of each blocked thread among the blocked ones
+	var bl []int
+	for _, t := range ts {
+		if t.block > 0 {
+			bl = append(bl, t.block)
+		}
+	}
+	sort.Ints(bl)
+	for _, t := range ts {
+		rank := 0
+		for i, b := range bl {
+			if t.block == b && b > 0 {
+				rank = i + 1
+			}
+		}
+		fmt.Fprintf(h, "\n%s|%s|q%d", t.name, t.rest, rank)
+	}
+	return hex.EncodeToString(h.Sum(nil)[:12])
 }
 
 func New(prefix []int) *Sched {
@@ -155,7 +223,8 @@ func (s *Sched) AdoptBackground(pairs [][2]int64) bool {
 			} else if lockState(os) {
 				s.mu.Lock()
 				if s.byGID[owner] == nil || s.byGID[owner].done {
-					nt := &thread{id: len(s.threads), name: "bg", gid: owner, resume: make(chan struct{}), adopted: true, blocked: true, at: "lock"}
+					s.blockSeq++
+					nt := &thread{id: len(s.threads), name: "bg", gid: owner, resume: make(chan struct{}), adopted: true, blocked: true, at: "lock", blockNo: s.blockSeq}
 					s.threads = append(s.threads, nt)
 					s.byGID[owner] = nt
 				}
@@ -318,6 +387,8 @@ func (s *Sched) await(t *thread) bool {
 				settledNow := t.parked || t.done
 				if !settledNow {
 					t.blocked = true
+					s.blockSeq++
+					t.blockNo = s.blockSeq
 				}
 				s.mu.Unlock()
 				return true
@@ -437,10 +508,15 @@ func (s *Sched) Run() {
 			}
 		}
 		t := s.threads[enabled[choice]]
-		s.Trace = append(s.Trace, Decision{Enabled: enabled, Chosen: choice, At: t.name + ":" + t.at, RunningEnabled: runEn})
+		d := Decision{Enabled: enabled, Chosen: choice, At: t.name + ":" + t.at, RunningEnabled: runEn}
+		if s.KeyFn != nil && step >= len(s.Prefix) {
+			d.Key = s.stateKey()
+		}
+		s.Trace = append(s.Trace, d)
 		step++
 		s.mu.Lock()
 		t.parked = false
+		t.steps++
 		s.mu.Unlock()
 		t.resume <- struct{}{}
 		if !s.await(t) {
